@@ -28,6 +28,7 @@ var fmtTrouble = []string{
 	"##!> assemble extra", "##!> include inc trailing text", "##!> include-except inc", "##!> define n", "##!> define n v w", "##!<<", "##!< trailing", "##!=>x", "##! ##!^ p",
 	"##!^", "##!+", "a ##!> include inc", "##!>", "##!> cmdline", "##!>define n v",
 	// white space other than blank and TAB at the start of a line belongs to the line (the compiler strips only blanks and TABs)
+	"\ufeffabc", "\ufeff##! c", "##!^ foo \t", "##!$ bar  ", "##!+ i \t",
 	"\ffoo", "\vbar", "\u00a0baz", " \fqux", "\f##!> assemble", "\v##!<", "\u2003##!+ i", "foo\f", "\f",
 }
 
